@@ -973,3 +973,39 @@ Proof.
   intros H. unfold encodes, tentry_of, utf8_path. cbn [te_raw te_cksum_ok te_kind te_data].
   rewrite utf8_ascii by exact H. rewrite utf8_decode_ascii by exact H. auto.
 Qed.
+
+(* ---- F19: outside the class "the archive contains a link entry" the code before the repair
+   behaves like the repaired code *)
+Definition has_link (es : list tentry) : bool := existsb (fun e => is_link (te_kind e)) es.
+
+Lemma entry_check_links_irrelevant e :
+  is_link (te_kind e) = false -> entry_check true e = entry_check false e.
+Proof.
+  intros H. unfold entry_check. rewrite H. cbn [negb andb].
+  destruct (utf8_decode (te_raw e)); reflexivity.
+Qed.
+
+Lemma extract_links_irrelevant dest : forall es d,
+  has_link es = false -> extract true dest d es = extract false dest d es.
+Proof.
+  induction es as [|e es IH]; intros d H; [reflexivity|].
+  cbn [has_link existsb] in H. apply orb_false_iff in H as [H1 H2].
+  cbn [extract]. unfold extract_entry. rewrite (entry_check_links_irrelevant e H1).
+  destruct (negb (entry_check false e =? 0)); [reflexivity|].
+  destruct (utf8_decode (te_raw e)) as [s|]; [|reflexivity].
+  destruct (dest_of dest s) as [q|]; [|apply IH; exact H2].
+  destruct (path_eqb q dest); [apply IH; exact H2|].
+  destruct (realpath d (removelast q)) as [parent|]; [|reflexivity].
+  destruct (negb (path_prefix dest parent)); [reflexivity|].
+  destruct (place d (parent ++ [last q []]) (te_kind e) (te_data e)); [|reflexivity].
+  apply IH. exact H2.
+Qed.
+
+Theorem extract_confined_outside_known dest es d :
+  has_link es = false -> nolinks d ->
+  exists w, result_fs (extract true dest d es) = w ++ d
+            /\ Forall (fun x => path_prefix (dest ++ [target_name]) (fst x) = true) w
+            /\ nolinks (w ++ d).
+Proof.
+  intros H Hn. rewrite extract_links_irrelevant by exact H. apply extract_confined. exact Hn.
+Qed.
